@@ -366,14 +366,14 @@ var c05AllSizes = []int{100, 1024, 3071, 4095, 4096, 4097, 6143, 8191, 8192, 819
 // bytes to another field so that a length field that grows by one does not skip the target.
 func c05FitExact(target int, build func(pad, tweak int) []byte) []byte {
 	for tweak := 0; tweak < 4; tweak++ {
-		base := len(build(0, tweak))
-		if base > target {
-			continue
-		}
-		for pad := target - base; pad >= 0 && pad >= target-base-12; pad-- {
-			if d := build(pad, tweak); len(d) == target {
+		pad := target - len(build(0, tweak))
+		// the length fields inside grow with pad: correct pad by the excess until it fits
+		for iter := 0; iter < 32 && pad >= 0; iter++ {
+			d := build(pad, tweak)
+			if len(d) == target {
 				return d
 			}
+			pad -= len(d) - target
 		}
 	}
 	return nil
